@@ -1061,8 +1061,36 @@ func init() {
 	reg("runtime.GOMAXPROCS", func(i *interpreter, fr *frame, fn *ssa.Function, a []value) value { return 4 })
 	reg("runtime.KeepAlive", func(i *interpreter, fr *frame, fn *ssa.Function, a []value) value { return nil })
 	reg("runtime.SetFinalizer", func(i *interpreter, fr *frame, fn *ssa.Function, a []value) value { return nil })
-	reg("os.Getenv", func(i *interpreter, fr *frame, fn *ssa.Function, a []value) value { return "" })
-	reg("os.LookupEnv", func(i *interpreter, fr *frame, fn *ssa.Function, a []value) value { return tuple{"", false} })
+	// the environment starts empty; what the harness sets with os.Setenv is what the code sees
+	reg("os.Getenv", func(i *interpreter, fr *frame, fn *ssa.Function, a []value) value {
+		if v, ok := i.ps.env[pathStr(a[0])]; ok {
+			return v
+		}
+		return ""
+	})
+	reg("os.LookupEnv", func(i *interpreter, fr *frame, fn *ssa.Function, a []value) value {
+		if v, ok := i.ps.env[pathStr(a[0])]; ok {
+			return tuple{v, true}
+		}
+		return tuple{"", false}
+	})
+	reg("os.Setenv", func(i *interpreter, fr *frame, fn *ssa.Function, a []value) value {
+		if i.ps.env == nil {
+			i.ps.env = map[string]value{}
+		}
+		i.ps.env[pathStr(a[0])] = a[1]
+		return iface{}
+	})
+	reg("os.Unsetenv", func(i *interpreter, fr *frame, fn *ssa.Function, a []value) value {
+		delete(i.ps.env, pathStr(a[0]))
+		return iface{}
+	})
+	// there is no network: a server that is asked to listen fails at once
+	for _, n := range []string{"(*net/http.Server).ListenAndServe", "(*net/http.Server).ListenAndServeTLS"} {
+		reg(n, func(i *interpreter, fr *frame, fn *ssa.Function, a []value) value {
+			return i.newError(fr, "listen: no network in the model")
+		})
+	}
 	reg("os.Getpid", func(i *interpreter, fr *frame, fn *ssa.Function, a []value) value { return 4242 })
 	reg("os.Getuid", func(i *interpreter, fr *frame, fn *ssa.Function, a []value) value { return 0 })
 	reg("os.Geteuid", func(i *interpreter, fr *frame, fn *ssa.Function, a []value) value { return 0 })
